@@ -295,7 +295,7 @@ def _passes(src):
 # ------------------------------------------------------------------------------------------------------------------
 PREFIXES = ["f", "F", "rf", "fr", "Rf", "fR", "FR", "rF", "RF", "Fr"]
 LIT_PLAIN = ["", "a", "abc def", " ", "x=", "%s", "#nc", "$HOME", "é", "日本", "a.b", "1+1", ":", "!", "!r", "=", "?", ",", ";"]
-LIT_ESC = ["\\n", "\\t", "\\\\", "\\x41", "\\101", "\\N{BULLET}", "\\u00e9", "\\'", '\\"', "\\0", "\\d", "\\{", "\\N{LATIN SMALL LETTER A}"]
+LIT_ESC = ["\\n", "\\t", "\\\\", "\\x41", "\\101", "\\N{BULLET}", "\\u00e9", "\\'", '\\"', "\\0", "\\d", "\\{", "\\N{LATIN SMALL LETTER A}", "\\N{HYPHEN-MINUS}", "\\N{NO-BREAK SPACE}", "\\N{DIGIT ONE}"]
 LIT_BRACE = ["{{", "}}", "{{}}", "{{x}}", "a{{b", "}}{{", "{{{{"]
 EXPRS = ["a", "a.b", "f(x)", "a + 1", "a[0]", "a['k']", "(lambda: 0)()", "(a if b else c)", "a if b else c", "[1, 2][0]", "{'k': 1}['k']", "{1, 2}", "(yield)" if False else "not a",
          "a != b", "a == b", "x", "y1", "-a", "a, b", "*a, b" if False else "(a, b)", "len(s)", "a  ", " a", "a  +  b", "3.14", "0x1f", "'s'", '"t"', "d[\"k\"]", "a := 1" if False else "(a := 1)",
@@ -303,7 +303,7 @@ EXPRS = ["a", "a.b", "f(x)", "a + 1", "a[0]", "a['k']", "(lambda: 0)()", "(a if 
 CONV = ["", "", "", "!r", "!s", "!a"]
 SPECS = ["", "", "", ":", ":>10", ":.2f", ":{w}", ":{w}.{p}", ":>{w}.{p}f", ":{w}x", ":x{w}", ":%Y-%m-%d", ":^10", ":{ w }", ":{w!r}", ":{w:>{z}}", ": ", ":#x", ":\\n" if False else ":,",
          # a spec that starts with '=' (not the walrus), a backslash before a brace, a named escape, escapes
-         ":=^10", ":=", ":=+6d", ":\\{w}", ":\\", ":x\\{w}\\", ":\\N{EM DASH}", ":\\N{BULLET}>5", ":\\t>4", ":\\\\"]
+         ":=^10", ":=", ":=+6d", ":\\{w}", ":\\", ":x\\{w}\\", ":\\N{EM DASH}", ":\\N{BULLET}>5", ":\\N{HYPHEN-MINUS}>5", ":\\N{LEFT-TO-RIGHT MARK}", ":\\t>4", ":\\\\"]
 
 
 def gen_field(rnd, quote, depth):
@@ -378,7 +378,7 @@ def gen_case(rnd):
 
 FIXED = ["x = f'a'\n", "x = f''\n", "x = f'{a}'\n", "x = f'{a}{b}'\n", "x = f'a{b}c'\n", "print(f\"{a}\", f\"{b}\")\n", "f'{a}'; {1}\n", "x = f\"a{{b}}\"\n", "x = f\"{a:>{w}}\"\n", "x = f\"a\\n\"\n",
          "x = f'{a!r}'\n", "x = f'{a=}'\n", "x = f'{a = }'\n", "x = f'{a=!r:>10}'\n", "x = f'{a:{b}.{c}}'\n", "x = f'{a:}'\n", "x = f'{f\"{b}\"}'\n", "x = f\"{f\"{b}\"}\"\n", "x = f'''{a\n}'''\n",
-         "x = f'''a\n{b}\nc'''\n", "x = f'{a}' 'b'\n", "x = 'a' f'{b}'\n", "x = f'a' f'b'\n", "x = f'{a}' f'{b}'\n", "x = rf'\\d{a}'\n", "x = f'\\N{BULLET}{a}'\n", "x = f'{{'\n", "x = f'}}'\n",
+         "x = f'''a\n{b}\nc'''\n", "x = f'{a}' 'b'\n", "x = 'a' f'{b}'\n", "x = f'a' f'b'\n", "x = f'{a}' f'{b}'\n", "x = rf'\\d{a}'\n", "x = f'\\N{BULLET}{a}'\n", "x = f'\\N{HYPHEN-MINUS}{a}'\n", "x = f'a\\N{NO-BREAK SPACE}b{a!r}'\n", "x = f'{a:\\N{HYPHEN-MINUS}^7}'\n", "x = f'{{'\n", "x = f'}}'\n",
          "x = f'{a:%Y-%m-%d}'\n", "x = f'{a!s:^{w}}'\n", "x = f'{a:{b:{c}}}'\n", "x = f'{{{a}}}'\n", "x = f'{a}}}'\n", "x = f'{{{{'\n", "x = f'{\"}\"}'\n", "x = f'{a}' \\\n  f'{b}'\n", "x = f'{d[\"k\"]}'\n",
          "x = f'{a,}'\n", "x = f'{*a,}'\n", "x = f\'\'\'{a=\n\n}\'\'\'\n", "x = f\'\'\'{a =\n  \n !r:>3}\'\'\'\n", "x = f\'\'\'z{a + 1 =\n\n\n:>10}b\'\'\'\n", "x = f'{lambda: 0}'\n" if False else "x = f'{(lambda: 0)}'\n", "x = f'{a:\\n}'\n" if False else "x = f'{a:x}'\n", "x = F'{a}'\n", "x = fR'{a}\\n'\n", "x = f'é{a}ü'\n", "x = f'{é}'\n",
          "x = f'{a}' ''\n", "x = '' f'{a}'\n", "x = f'' ''\n", "x = '' f'{a}' '' 'b' ''\n", "x = f'''{a:'>5}'''\n", 'x = f"""{a:"">5}"""\n', "x = f'''{a:>5}' '''\n"]
